@@ -687,7 +687,14 @@ func init() {
 			if !ok {
 				return "nil-error-on-unlexable-input", "", false
 			}
+			// the token stream itself must reach the end of the input (an <eof> token before that hides the rest from every check below)
+			if n := len(toks); n == 0 || toks[n-1].Kind != token.TokenEOF || int(toks[n-1].End) != len(x) {
+				return "nil-error-but-input-remains", fmt.Sprintf("the token stream ends before the input does (%d bytes)", len(x)), false
+			}
 			for ti, t := range toks {
+				if t.Kind == token.TokenEOF && ti != len(toks)-1 {
+					return "nil-error-but-input-remains", fmt.Sprintf("<eof> token at %d in the middle of the input", t.Pos), false
+				}
 				if t.Kind == token.TokenEOF || (e.list && t.Kind == ";") {
 					continue
 				}
